@@ -461,9 +461,13 @@ scansetloc(struct location loc, size_t line)
 static void
 scanclose(void)
 {
+	struct scanner *next;
+
+	next = scanner->next;
 	fclose(scanner->file);
 	free(scanner->buf.str);
 	free(scanner);
+	scanner = next;
 }
 
 void
@@ -475,7 +479,6 @@ scan(struct token *t)
 		if (t->kind != TEOF || !scanner->next)
 			break;
 		scanclose();
-		scanner = scanner->next;
 		scanopen();
 	}
 	if (scanner->usebuf) {
